@@ -415,6 +415,73 @@ def wid6(ctx, c):
     c.ok("repository", "%d width formulas derived from table sizes examined" % n, nontrivial=False)
 
 
+def _lay5_evaluated(ctx, c, f, where):
+    """get_binary_array folded over a model statement list: each field is (hex string, hex_len) as the value classes produce them - the RMB fields by folding
+    NumericValue(0, size_hint=2n) - and the bytes must be, per statement, the first hex_len digits of op_code, post_byte, additional."""
+    import copy
+    from ..consteval import fold_body, NotConst as _NC, Raised as _R
+
+    class T(ast.NodeTransformer):
+        def visit_Call(self, n):
+            if isinstance(n.func, ast.Attribute) and n.func.attr in ("hex", "hex_len") and not n.args and not n.keywords:
+                return ast.Subscript(value=self.visit(n.func.value), slice=ast.Constant(n.func.attr), ctx=ast.Load())
+            if isinstance(n.func, ast.Attribute):
+                n.func.value = self.visit(n.func.value)
+                n.args = [self.visit(a) for a in n.args]
+                n.keywords = [ast.keyword(arg=k.arg, value=self.visit(k.value)) for k in n.keywords]
+                return n
+            return self.generic_visit(n)
+
+        def visit_Attribute(self, n):
+            if isinstance(n.ctx, ast.Load):
+                return ast.Subscript(value=self.visit(n.value), slice=ast.Constant(n.attr), ctx=ast.Load())
+            return self.generic_visit(n)
+    try:
+        body = [T().visit(copy.deepcopy(st)) for st in body_without_doc(f.node)]
+        for st in body:
+            ast.fix_missing_locations(st)
+
+        def V(h, n):
+            return {"hex": h, "hex_len": n, "int": int(h or "0", 16)}
+
+        def S(what, op, post, add, skip=False):
+            return {"what": what, "is_empty": skip, "is_comment_only": False, "code_pkg": {"op_code": V(*op), "post_byte": V(*post), "additional": V(*add)}}
+        stmts = [S("LDA #5", ("86", 2), ("", 0), ("05", 2)), S("LDY #$1234", ("108E", 4), ("", 0), ("1234", 4)), S("LDA ,X", ("A6", 2), ("84", 2), ("", 0)),
+                 S("NEG <$10", ("00", 2), ("", 0), ("10", 2)), S("EXG D,D", ("1E", 2), ("00", 2), ("", 0)), S("an empty line", ("", 0), ("", 0), ("", 0), skip=True),
+                 S("LDA $10,X", ("A6", 2), ("88", 2), ("10", 2)), S("FCB 0", ("", 0), ("", 0), ("00", 2))]
+        for n_ in (0, 1, 3):
+            e_ = fold_constructor(ctx, "NumericValue", {"value": 0, "size_hint": 2 * n_})
+            se_ = {k: x for k, x in e_.items() if k.startswith("self.")}
+            stmts.append(S("RMB %d" % n_, ("", 0), ("", 0), (fold_method(ctx, "NumericValue", "hex", se_), fold_method(ctx, "NumericValue", "hex_len", se_))))
+        stmts.append(S("SWI (last statement)", ("3F", 2), ("", 0), ("", 0)))
+        bad = None
+        for k in range(len(stmts)):
+            env = dict(ctx.env)
+            env["self"] = {"statements": stmts[:k + 1]}
+            got = fold_body(body, env)
+            want = []
+            for st in stmts[:k + 1]:
+                if st["is_empty"]:
+                    continue
+                for fld in ("op_code", "post_byte", "additional"):
+                    v = st["code_pkg"][fld]
+                    want += list(bytes.fromhex(v["hex"][:v["hex_len"]]))
+            if not isinstance(got, list):
+                raise _NC("result %r" % (got,))
+            if list(got) != want:
+                bad = (stmts[k]["what"], got, want)
+                break
+        if bad:
+            c.finding("get_binary_array:evaluated", "after %s the image is %s, the code packages hold %s" % (bad[0], bad[1][-6:], bad[2][-6:]),
+                      "get_binary_array, folded over a model program, emits %s once `%s` is appended where the code packages hold %s: the image must be, statement by statement, the "
+                      "hex_len digits of op_code, post_byte and additional (a field of length 0 - RMB 0 - contributes nothing; a field whose value is 0 contributes its bytes)"
+                      % (bad[1], bad[0], bad[2]), where)
+        else:
+            c.ok("get_binary_array:evaluated", "folded over %d model statements (incl. RMB 0, opcode 00, post byte 00)" % len(stmts), where)
+    except (_NC, _R, Exception) as e:
+        c.undecided("get_binary_array:evaluated", "not-foldable", str(e)[:80], where)
+
+
 def lay5(ctx, c):
     """LAY-5 emission: bytes = op_code, post_byte, additional, in that order, in the listing and in the image."""
     repo = ctx.repo
@@ -484,7 +551,14 @@ def lay5(ctx, c):
                               "get_binary_array removes statements from its copy of the list (`%s`) before emitting: those statements have addresses and sizes in the listing but "
                               "no bytes in the image, and a program that is later extended changes the bytes already emitted for its beginning" % U(removed[0])[:50], repo.loc(f, removed[0]))
                     continue
-            if exits:
+            reordered = isinstance(n.iter, ast.Call) and U(n.iter.func) in ("sorted", "reversed") or \
+                any(isinstance(x, ast.Call) and isinstance(x.func, ast.Attribute) and x.func.attr in ("sort", "reverse") and "statements" in U(x.func.value) for x in ast.walk(f.node))
+            if reordered:
+                c.finding("get_binary_array:statement-loop", "the statements are emitted in another order than they were written (%s)" % U(n.iter)[:50],
+                          "get_binary_array iterates over `%s`: the image is the bytes of the statements in source order starting at the origin - sorted by address, a program "
+                          "with a second ORG below the first (or appended statements that go back) is emitted in an order no loader expects, and what was emitted before is no longer "
+                          "a prefix of the new image" % U(n.iter)[:70], repo.loc(f, n))
+            elif exits:
                 c.finding("get_binary_array:statement-loop", "early exit from the loop over the statements",
                           "get_binary_array leaves the loop over the statements early (%s): the statements after that point have addresses and sizes in the listing "
                           "but no bytes in the image" % U(exits[0]), repo.loc(f, exits[0]))
@@ -493,6 +567,7 @@ def lay5(ctx, c):
                           "get_binary_array iterates over %s, not over all statements" % U(n.iter), repo.loc(f, n))
             else:
                 c.ok("get_binary_array:statement-loop", "no early exit", repo.loc(f, n))
+    _lay5_evaluated(ctx, c, f, where)
     s = repo.method("Statement", "__str__")
     first = {}
     for n in ast.walk(s.node):
